@@ -116,16 +116,22 @@ func c16World(g int) hx.World {
 	files := map[string]string{"out.txt": fmt.Sprintf("product of %d\n", g)}
 	k := hx.PoolKey([]string{"ed25519-0", "ecdsa-p256-0", "ed25519-1", "ecdsa-p256-1"}[g%4])
 	link := hx.MLink{Type: "link", Name: "build", Materials: hx.MArtifacts{}, Products: hx.ArtifactsOf(files), ByProducts: hx.MObj{}, Command: []string{}, Environment: hx.MObj{}}
+	// a second step whose rules read the same in every goroutine's layout (independent objects, equal text)
+	pkg := hx.MLink{Type: "link", Name: "package", Materials: hx.ArtifactsOf(files), Products: hx.ArtifactsOf(files), ByProducts: hx.MObj{}, Command: []string{}, Environment: hx.MObj{}}
 	insp := fmt.Sprintf("insp-g%d", g)
 	lay := hx.MLayout{Type: "layout", Expires: hx.FarFuture, Keys: hx.MKeys{k.KeyID: hx.MKeyFromLib(k.Pub())},
-		Steps: []hx.MStep{{Type: "step", Name: "build", PubKeys: []string{k.KeyID}, Threshold: 1, ExpCommand: []string{}, ExpMat: [][]string{{"ALLOW", "*"}}, ExpProd: [][]string{{"ALLOW", "*"}}}},
+		Steps: []hx.MStep{{Type: "step", Name: "build", PubKeys: []string{k.KeyID}, Threshold: 1, ExpCommand: []string{}, ExpMat: [][]string{{"ALLOW", "*"}}, ExpProd: [][]string{{"ALLOW", "*"}}},
+			{Type: "step", Name: "package", PubKeys: []string{k.KeyID}, Threshold: 1, ExpCommand: []string{},
+				ExpMat:  [][]string{{"MATCH", "nothing", "IN", "sub/dir/", "WITH", "PRODUCTS", "IN", "other//dir", "FROM", "build"}, {"MATCH", "*", "WITH", "PRODUCTS", "FROM", "build"}, {"DISALLOW", "*"}},
+				ExpProd: [][]string{{"MATCH", "*", "WITH", "MATERIALS", "FROM", "package"}, {"DISALLOW", "*"}}}},
 		Inspect: []hx.MInspection{{Type: "inspection", Name: insp, Run: []string{"@EMIT@", "w:checked-" + insp + ":ok"},
 			ExpMat: [][]string{{"MATCH", "*", "IN", "@RUNDIR@", "WITH", "PRODUCTS", "FROM", "build"}, {"DISALLOW", "*"}}, ExpProd: [][]string{{"ALLOW", "*"}}}}}
 	wrapper := []string{"legacy", "dsse"}[g%2]
 	return hx.World{Entry: "rundir", Product: []hx.WFile{{Path: "out.txt", Content: files["out.txt"]}},
 		Layout:       hx.WMetaFile{Name: "root.layout", Wrapper: wrapper, Meta: hx.MMeta{Layout: &lay}, Sigs: []hx.WSig{{Key: "ed25519-2"}}},
 		VerifierKeys: []hx.WKey{{Key: "ed25519-2"}},
-		Links:        []hx.WMetaFile{{Name: hx.LinkFileName("build", k.KeyID), Wrapper: wrapper, Meta: hx.MMeta{Link: &link}, Sigs: []hx.WSig{{Key: k.Name}}}}}
+		Links:        []hx.WMetaFile{{Name: hx.LinkFileName("build", k.KeyID), Wrapper: wrapper, Meta: hx.MMeta{Link: &link}, Sigs: []hx.WSig{{Key: k.Name}}},
+			{Name: hx.LinkFileName("package", k.KeyID), Wrapper: wrapper, Meta: hx.MMeta{Link: &pkg}, Sigs: []hx.WSig{{Key: k.Name}}}}}
 }
 
 func c16Do(st *c16State, op c16Op, g, i int, mode string) string {
@@ -280,8 +286,91 @@ func c16RaceLogTail() string {
 	return ""
 }
 
+// c16Poisoned is set once a deadlock was diagnosed in this process: the stuck goroutines (and whatever
+// they hold) stay, so every further case is evaluated in a fresh process.
+var c16Poisoned bool
+
+// c16Await waits for the goroutines of one concurrent round. When they do not finish, it takes two
+// snapshots of all goroutine stacks five seconds apart: if every goroutine of the round that is still
+// inside the library is parked on a channel / lock operation (not waiting for a child process or for
+// I/O) with an unchanged stack, that is a deadlock (positive diagnosis, returned as text). Anything
+// else keeps waiting; after ten minutes the case is abandoned as inconclusive ("" plus harness error).
+func c16Await(wg *sync.WaitGroup) string {
+	done := make(chan struct{})
+	go func() { wg.Wait(); close(done) }()
+	begin := time.Now()
+	for {
+		select {
+		case <-done:
+			return ""
+		case <-time.After(20 * time.Second):
+		}
+		a := c16Blocked()
+		select {
+		case <-done:
+			return ""
+		case <-time.After(5 * time.Second):
+		}
+		b := c16Blocked()
+		if a.deadlocked && b.deadlocked && a.signature == b.signature && a.n > 0 {
+			return fmt.Sprintf("deadlock: %d goroutines are parked inside the library with unchanged stacks, e.g.\n%s", b.n, b.example)
+		}
+		if time.Since(begin) > 10*time.Minute {
+			hx.HarnessError("C16: a concurrent round did not finish within 10 minutes without a positive deadlock diagnosis")
+			<-done
+			return ""
+		}
+	}
+}
+
+type c16Snapshot struct {
+	deadlocked bool
+	n          int
+	signature  string
+	example    string
+}
+
+func c16Blocked() c16Snapshot {
+	buf := make([]byte, 8<<20)
+	buf = buf[:runtime.Stack(buf, true)]
+	snap := c16Snapshot{deadlocked: true}
+	var sig []string
+	for _, g := range strings.Split(string(buf), "\n\n") {
+		if !strings.Contains(g, "checks.c16Exec.func") || !strings.Contains(g, "in-toto-golang/in_toto.") {
+			continue
+		}
+		head := g
+		if i := strings.IndexByte(g, '\n'); i > 0 {
+			head = g[:i]
+		}
+		parked := false
+		for _, st := range []string{"[chan send", "[chan receive", "[select", "[semacquire", "[sync.Mutex.Lock", "[sync.RWMutex", "[sync.Cond.Wait", "[sync.WaitGroup.Wait"} {
+			if strings.Contains(head, st) {
+				parked = true
+			}
+		}
+		if !parked || strings.Contains(g, "os/exec.") || strings.Contains(g, "internal/poll.") {
+			snap.deadlocked = false
+			continue
+		}
+		snap.n++
+		// the wait time in the header changes between snapshots: keep id and frames only
+		id := strings.SplitN(head, " [", 2)[0]
+		sig = append(sig, id+"|"+g[len(head):])
+		if snap.example == "" {
+			snap.example = g
+			if len(snap.example) > 1800 {
+				snap.example = snap.example[:1800]
+			}
+		}
+	}
+	sort.Strings(sig)
+	snap.signature = strings.Join(sig, "\n")
+	return snap
+}
+
 func c16Run(c c16Case, r *hx.Rec) error {
-	if c.Cold && os.Getenv("VERIF_C16_CHILD") == "" {
+	if (c.Cold || c16Poisoned) && os.Getenv("VERIF_C16_CHILD") == "" {
 		return c16Cold(c, r)
 	}
 	return c16Exec(c, r, false)
@@ -477,7 +566,10 @@ func c16Exec(c c16Case, r *hx.Rec, concFirst bool) error {
 			}(g)
 		}
 		close(start)
-		wg.Wait()
+		if msg := c16Await(&wg); msg != "" {
+			c16Poisoned = true
+			return fmt.Errorf("concurrent calls never return: %s", msg)
+		}
 		// overlap measurement: two goroutines inside the same API family at the same time
 		var all []span
 		for _, s := range spans {
